@@ -1,6 +1,8 @@
 import PortusModel.Driver.Wire
 import PortusModel.Props.C04
 import PortusModel.Props.C07
+import PortusModel.Props.C08
+import PortusModel.Driver.Bkd
 /-! `ORC <id> Cnn <input> <observed…>`: evaluate the property oracle `Cnn.check` on behaviour observed
 from the implementation. Answers `PASS` or `FAIL`. -/
 namespace Portus.Driver
@@ -109,6 +111,27 @@ def orcC07 (args : List String) : String :=
       | some ms, some enc, some dec => passFail (C07.check ms enc dec)
       | _, _, _ => "FAIL unparsable-observation"
     | _ => "FAIL unparsable-observation"
+  | _ => "BADARG"
+
+/-- the `BKD` rendering: `<addr> <decoded>` separated by `|`, terminated by `END` -/
+def parseYields (toks : List String) : Option (Out (List (Msg × Nat))) :=
+  if toks = ["PANIC"] ∨ toks = ["ABORT"] then some .panic else
+  let rec go (parts : List (List String)) (acc : List (Msg × Nat)) : Option (Out (List (Msg × Nat))) :=
+    match parts with
+    | [["END"]] => some (.ok acc.reverse)
+    | (a :: rest) :: more =>
+      match a.toNat?, parseDecResult rest with
+      | some a, some (.ok (m, _)) => go more ((m, a) :: acc)
+      | _, _ => none
+    | _ => none
+  go (splitAt "|" toks) []
+
+def orcC08 (args : List String) : String :=
+  match splitAt "@@" args with
+  | [_fill :: items, obs] =>
+    match items.mapM parseRx, parseYields obs with
+    | some rx, some ys => passFail (C08.check rx ys)
+    | _, _ => "FAIL unparsable-observation"
   | _ => "BADARG"
 
 end Portus.Driver
